@@ -1,12 +1,15 @@
+pub mod arch;
 pub mod common;
 
 pub mod c01;
 pub mod c02;
 pub mod c03;
+pub mod c04;
 pub mod c05;
 pub mod c07;
 pub mod c08;
 pub mod c09;
+pub mod c10;
 pub mod c11;
 pub mod c15;
 pub mod c18;
@@ -18,10 +21,12 @@ pub fn run(check: &str, ctx: &mut Ctx) -> bool {
         "c01" => c01::run(ctx),
         "c02" => c02::run(ctx),
         "c03" => c03::run(ctx),
+        "c04" => c04::run(ctx),
         "c05" => c05::run(ctx),
         "c07" => c07::run(ctx),
         "c08" => c08::run(ctx),
         "c09" => c09::run(ctx),
+        "c10" => c10::run(ctx),
         "c11" => c11::run(ctx),
         "c15" => c15::run(ctx),
         "c18" => c18::run(ctx),
